@@ -120,4 +120,139 @@ Proof.
   - lia.
   - intros t H1 H2. rewrite (coef_ge D P (S k + t)) by lia. ring.
 Qed.
+
+Lemma length_pairs : forall c P k, length (stdsqr_pairs D P k c) = (2 * c)%nat.
+Proof. induction c as [|c IH]; intros P k. reflexivity. cbn [stdsqr_pairs length]. rewrite IH. lia. Qed.
+Lemma coef_pairs : forall c P k t, t < c ->
+  coef (stdsqr_pairs D P k c) (2 * t) = odd_entry P (k + t) /\
+  coef (stdsqr_pairs D P k c) (2 * t + 1) = even_entry P (k + t).
+Proof.
+  induction c as [|c IH]; intros P k t Ht. lia.
+  cbn [stdsqr_pairs]. destruct t as [|t].
+  - rewrite Nat.add_0_r. split; reflexivity.
+  - replace (2 * S t)%nat with (S (S (2 * t))) by lia. replace (S (S (2 * t)) + 1)%nat with (S (S (2 * t + 1))) by lia.
+    rewrite !coef_cons_S. replace (k + S t)%nat with (S k + t)%nat by lia. apply IH. lia.
+Qed.
+
+(* what a squaring routine on ranges must deliver (its precondition: the range holds exactly 2|P|-1 entries) *)
+Definition srec_ok (L : nat) (recs : nat -> list T -> list T) : Prop :=
+  forall n P, 1 <= length P -> length P <= L -> n = (2 * length P - 1)%nat ->
+  length (recs n P) = n /\ forall i, i < n -> coef (recs n P) i = coef (pmul P P) i.
+
+Lemma stdsqr_ok : forall L, srec_ok L (stdsqr_r D).
+Proof.
+  intros L n P HP _ Hn. unfold stdsqr_r.
+  assert (Ed : Nat.div2 (n - 1) = (length P - 1)%nat).
+  { replace (n - 1)%nat with (2 * (length P - 1))%nat by lia. apply Nat.div2_double. }
+  rewrite Ed. split.
+  - cbn [length]. rewrite length_pairs. lia.
+  - intros i Hi. destruct i as [|j].
+    + rewrite coef_cons_0, coef_pmul_conv. cbn [bigsum Nat.sub]. ring.
+    + rewrite coef_cons_S. destruct (Nat.Even_or_Odd j) as [[t Ht]|[t Ht]]; subst j.
+      * destruct (coef_pairs (length P - 1) P 1 t) as [E _]. lia. rewrite E, odd_entry_spec by lia.
+        f_equal. lia.
+      * destruct (coef_pairs (length P - 1) P 1 t) as [_ E]. lia. rewrite E, even_entry_spec by lia.
+        f_equal. lia.
+Qed.
+
+(* (Pl + X^h Ph)^2, coefficientwise *)
+Lemma sqr_identity : forall h Pl Ph i,
+  coef (pmul (padd Pl (shiftn D h Ph)) (padd Pl (shiftn D h Ph))) i =
+  coef (pmul Pl Pl) i
+  + (if h <=? i then coef (pmul Pl Ph) (i - h)%nat + coef (pmul Pl Ph) (i - h)%nat else O_)
+  + (if 2 * h <=? i then coef (pmul Ph Ph) (i - 2 * h)%nat else O_).
+Proof.
+  intros h Pl Ph i.
+  set (X := shiftn D h [I_]).
+  assert (E : peq (pmul (padd Pl (shiftn D h Ph)) (padd Pl (shiftn D h Ph)))
+                  (padd (padd (pmul Pl Pl) (pmul X (padd (pmul Pl Ph) (pmul Pl Ph))))
+                        (pmul X (pmul X (pmul Ph Ph))))).
+  { transitivity (pmul (padd Pl (pmul X Ph)) (padd Pl (pmul X Ph))).
+    - apply (pmul_proper D OK); apply (padd_proper D OK); try reflexivity; apply (shiftn_as_mul D OK).
+    - ring. }
+  rewrite (E i). unfold X.
+  rewrite !(coef_add D OK).
+  rewrite (pmul_shiftn D OK h [I_] _ i), (coef_shiftn D).
+  rewrite (pmul_shiftn D OK h [I_] _ i), (coef_shiftn D).
+  destruct (Nat.ltb_spec i h); destruct (Nat.leb_spec h i); try lia.
+  - destruct (Nat.leb_spec (2 * h) i); try lia. ring.
+  - rewrite (pmul_1_l D OK _ (i - h)%nat), (coef_add D OK).
+    rewrite (pmul_1_l D OK _ (i - h)%nat), (pmul_shiftn D OK h [I_] _ (i - h)%nat), (coef_shiftn D).
+    destruct (Nat.ltb_spec (i - h) h); destruct (Nat.leb_spec (2 * h) i); try lia.
+    + ring.
+    + rewrite (pmul_1_l D OK _ (i - h - h)%nat). replace (i - h - h)%nat with (i - 2 * h)%nat by lia. ring.
+Qed.
+
+Lemma sqrrec_body_ok : forall recs recm cP n P,
+  srec_ok (length P - 1) recs -> rec_ok D recm -> 2 <= length P -> n = (2 * length P - 1)%nat -> length P - 1 <= cP ->
+  length (sqrrec_body D recs recm cP n P) = n /\
+  forall i, i < n -> coef (sqrrec_body D recs recm cP n P) i = coef (pmul P P) i.
+Proof.
+  intros recs recm cP n P Hs Hm HP Hn HcP. unfold sqrrec_body.
+  set (half := Nat.div2 (length P)).
+  set (Pl := firstn half P). set (Ph := skipn half P).
+  pose proof (div2_le (length P)) as dP. pose proof (div2_ge (length P)) as eP. fold half in dP, eP.
+  assert (Hh : 1 <= half) by lia.
+  assert (LPl : length Pl = half) by (unfold Pl; rewrite firstn_length; lia).
+  assert (LPh : length Ph = (length P - half)%nat) by (unfold Ph; apply skipn_length).
+  destruct (Hs (2 * half - 1)%nat Pl) as [LX0 CX0]; [lia | lia | lia |].
+  destruct (Hs (n - 2 * half)%nat Ph) as [LX2 CX2]; [lia | lia | lia |].
+  set (X0 := recs (2 * half - 1)%nat Pl) in *. set (X2 := recs (n - 2 * half)%nat Ph) in *.
+  set (R0 := overwrite (zeros D n) 0 X0).
+  set (R1 := overwrite R0 (2 * half) X2).
+  set (M := mul_s D (setdegree D (recm cP Pl Ph)) (two D)).
+  assert (LR0 : length R0 = n) by (unfold R0; rewrite length_overwrite; rewrite length_zeros; lia).
+  assert (LR1 : length R1 = n) by (unfold R1; rewrite length_overwrite; lia).
+  set (a := coef (pmul Pl Pl)). set (b := coef (pmul Ph Ph)). set (m := coef (pmul Pl Ph)).
+  assert (Hspec : forall i, coef (pmul P P) i =
+            a i + (if half <=? i then m (i - half)%nat + m (i - half)%nat else O_)
+            + (if 2 * half <=? i then b (i - 2 * half)%nat else O_)).
+  { intros i. unfold a, b, m. rewrite <- sqr_identity. apply (pmul_proper D OK); apply (split_at D OK). }
+  assert (Za : forall j, 2 * half <= S j -> a j = O_).
+  { intros j Hj. unfold a. apply (coef_pmul_high D OK). lia. }
+  assert (Zm : forall j, length P <= S j -> m j = O_).
+  { intros j Hj. unfold m. apply (coef_pmul_high D OK). lia. }
+  assert (CM : forall j, coef M j = m j + m j).
+  { intros j. unfold M. rewrite (coef_mul_s D OK), (coef_setdegree D OK), (rec_ok_coef D recm Hm).
+    unfold two. destruct (Nat.ltb_spec j cP). fold (m j). ring. rewrite (Zm j) by lia. ring. }
+  assert (CR0 : forall i, i < n -> coef R0 i = if i <? 2 * half - 1 then a i else O_).
+  { intros i Hi. unfold R0. rewrite coef_overwrite by lia. rewrite LX0, length_zeros, coef_zeros.
+    destruct (Nat.ltb_spec i 0); [lia|]. destruct (Nat.ltb_spec i (2 * half - 1)).
+    - destruct (Nat.ltb_spec i (0 + (2 * half - 1))); [|lia]. destruct (Nat.ltb_spec i n); [|lia]. cbn [andb].
+      rewrite Nat.sub_0_r. apply CX0. assumption.
+    - destruct (Nat.ltb_spec i (0 + (2 * half - 1))); [lia|]. reflexivity. }
+  assert (CR1 : forall i, i < n -> coef R1 i = if i <? 2 * half then (if i <? 2 * half - 1 then a i else O_) else b (i - 2 * half)%nat).
+  { intros i Hi. unfold R1. rewrite coef_overwrite by lia. rewrite LX2, LR0.
+    destruct (Nat.ltb_spec i (2 * half)). apply CR0; assumption.
+    destruct (Nat.ltb_spec i (2 * half + (n - 2 * half))); [|lia]. destruct (Nat.ltb_spec i n); [|lia]. cbn [andb].
+    apply CX2. lia. }
+  split. { rewrite length_addshift. assumption. }
+  intros i Hi. rewrite coef_addshift, LR1, (CR1 i Hi), CM, Hspec.
+  destruct (Nat.leb_spec half i); destruct (Nat.ltb_spec i n); try lia; cbn [andb];
+    destruct (Nat.ltb_spec i (2 * half)); destruct (Nat.leb_spec (2 * half) i); try lia;
+    destruct (Nat.ltb_spec i (2 * half - 1)); try lia; try ring.
+  1,2: rewrite (Za i) by lia; ring.
+  exact OK.
+Qed.
+
+Lemma sqr_r_ok : forall fuel kthr sthr cP, 1 <= kthr -> 1 <= sthr -> srec_ok (S cP) (sqr_r D fuel kthr sthr cP).
+Proof.
+  induction fuel as [|f IH]; intros kthr sthr cP Hk Hs n P HP HL Hn.
+  - cbn [sqr_r]. apply (stdsqr_ok (S cP)); assumption.
+  - cbn [sqr_r]. destruct (Nat.ltb_spec sthr (length P)).
+    + apply sqrrec_body_ok; try assumption; try lia.
+      * intros n' P' HP' HL' Hn'. apply IH; try assumption. lia.
+      * apply (mul_r_spec D OK). assumption.
+    + apply (stdsqr_ok (S cP)); assumption.
+Qed.
+
+(* the public sqr(R,P) *)
+Lemma sqr_spec : forall kthr sthr P, 1 <= kthr -> 1 <= sthr -> peq (sqr D kthr sthr P) (pmul P P).
+Proof.
+  intros kthr sthr P Hk Hs. unfold sqr. destruct P as [|a P]. reflexivity.
+  destruct (sqr_r_ok (length (a :: P)) kthr sthr (length (a :: P)) Hk Hs (2 * length (a :: P) - 1)%nat (a :: P)) as [L C];
+    [cbn [length]; lia | lia | reflexivity |].
+  eapply (peq_of_prefix D). exact L. 2: exact C.
+  intros i Hi. apply (coef_pmul_high D OK). lia.
+Qed.
 End Sqr.
